@@ -46,6 +46,7 @@ package processors
 //@ spec func Narrowed(n *component_definition.Property, c []*component_definition.Meta, r []*component_definition.Meta) bool = NilFree(r) && FromCands(c, r) && QualOnly(n, r) && !NoneInQ(n, c) && implies(!Single(n), KeepsAll(n, c, r)) && implies(Single(n), len(r) == 1 && UniquePrimaryWins(n, c, r) && UniqueUnnamedWins(n, c, r) && BestClass(n, c, r))
 
 //@ func filterDependencies
+//@ terminates
 //@ property C08 C10
 //@ ghost-tags metas
 //@ requires [point-wellformed] PointOK(n)
@@ -110,6 +111,7 @@ package processors
 // reflect.Kind: Interface 20, Pointer 22, Slice 23.
 
 //@ func isActualKind
+//@ terminates
 //@ property C06
 //@ requires [type-given] p != nil
 //@ assigns nothing
@@ -227,38 +229,47 @@ package processors
 
 // ---- constructors of the built-in processors (C09, C18): each returns a usable, freshly allocated processor -----------
 //@ func NewLoggerAwarePostProcessor
+//@ terminates
 //@ property C09
 //@ assigns nothing
 //@ ensures [built] result != nil
 //@ func NewConfigQuoteAwarePostProcessors
+//@ terminates
 //@ property C09 C16
 //@ assigns nothing
 //@ ensures [built] result != nil
 //@ func NewExpressionTagAwarePostProcessors
+//@ terminates
 //@ property C09 C18
 //@ assigns nothing
 //@ ensures [built] result != nil
 //@ func NewPropertiesAwarePostProcessors
+//@ terminates
 //@ property C09
 //@ assigns nothing
 //@ ensures [built] result != nil
 //@ func NewValueAwarePostProcessors
+//@ terminates
 //@ property C09
 //@ assigns nothing
 //@ ensures [built] result != nil
 //@ func NewValidateAwarePostProcessors
+//@ terminates
 //@ property C09 C18
 //@ assigns nothing
 //@ ensures [built] result != nil
 //@ func NewDependencyAwarePostProcessors
+//@ terminates
 //@ property C09
 //@ assigns nothing
 //@ ensures [built] result != nil
 //@ func NewDependencyFurtherMatchingProcessors
+//@ terminates
 //@ property C09
 //@ assigns nothing
 //@ ensures [built] result != nil
 //@ func NewDependencyFunctionAwarePostProcessors
+//@ terminates
 //@ property C09
 //@ assigns nothing
 //@ ensures [built] result != nil
